@@ -43,14 +43,16 @@ func globalsPrelude() string {
 }
 
 type jscope struct {
-	parent *jscope
-	isFunc bool
-	lex    map[string]bool
-	vars   map[string]bool
-	all    []string // every name declared here, for picking references
-	script bool     // top scope of a classic script
-	params map[string]bool
-	frozen bool // module top level after its declaration prefix: no later lexical declarations (bundling turns top-level let into var, which would change TDZ errors)
+	parent       *jscope
+	isFunc       bool
+	lex          map[string]bool
+	vars         map[string]bool
+	all          []string // every name declared here, for picking references
+	script       bool     // top scope of a classic script
+	params       map[string]bool
+	withBoundary bool            // body scope of a with statement
+	blocked      map[string]bool // names referenced through a with below: must not be declared here later
+	frozen       bool            // module top level after its declaration prefix: no later lexical declarations (bundling turns top-level let into var, which would change TDZ errors)
 }
 
 type jsgen struct {
@@ -79,7 +81,7 @@ func (g *jsgen) name() string {
 }
 
 func newScope(parent *jscope, isFunc bool) *jscope {
-	return &jscope{parent: parent, isFunc: isFunc, lex: map[string]bool{}, vars: map[string]bool{}, params: map[string]bool{}}
+	return &jscope{parent: parent, isFunc: isFunc, lex: map[string]bool{}, vars: map[string]bool{}, params: map[string]bool{}, blocked: map[string]bool{}}
 }
 
 // A classic script shares the global object with the prelude that defines the
@@ -106,7 +108,7 @@ func (s *jscope) canLex(n string) bool {
 	if s.parent == nil && s.script && scriptTopExclude[n] {
 		return false
 	}
-	return !s.frozen && !s.lex[n] && !s.vars[n]
+	return !s.frozen && !s.lex[n] && !s.vars[n] && !s.blocked[n]
 }
 func (s *jscope) addLex(n string) { s.lex[n] = true; s.all = append(s.all, n) }
 func (s *jscope) canVar(n string) bool {
@@ -114,12 +116,41 @@ func (s *jscope) canVar(n string) bool {
 		return false
 	}
 	for c := s; c != nil; c = c.parent {
-		if c.lex[n] {
+		if c.lex[n] || c.blocked[n] {
 			return false
 		}
 		if c.isFunc {
 			break
 		}
+	}
+	return true
+}
+
+// A reference that passes through a `with` body pins the symbol it resolves to. A pinned
+// symbol of a nested scope is not reserved by the renamers (recorded findings, replayed
+// from the corpus), so inside `with` only names declared inside the body, at the top level,
+// or nowhere (free) are referenced - and such a name may not be declared later in a scope
+// between the with and the top level.
+func (s *jscope) refOK(n string) bool {
+	passed := false
+	var between []*jscope
+	for c := s; c != nil; c = c.parent {
+		declared := c.lex[n] || (c.isFunc && (c.vars[n] || c.params[n]))
+		if declared {
+			if passed && c.parent != nil {
+				return false
+			}
+			break
+		}
+		if passed && c.parent != nil {
+			between = append(between, c)
+		}
+		if c.withBoundary {
+			passed = true
+		}
+	}
+	for _, c := range between {
+		c.blocked[n] = true
 	}
 	return true
 }
@@ -152,11 +183,17 @@ type jctx struct {
 }
 
 func (g *jsgen) refName(c *jctx) string {
-	vis := c.sc.visible()
-	if len(vis) > 0 && g.r.Chance(70) {
-		return vis[g.r.Intn(len(vis))]
+	for try := 0; try < 12; try++ {
+		n := g.name()
+		vis := c.sc.visible()
+		if len(vis) > 0 && g.r.Chance(70) {
+			n = vis[g.r.Intn(len(vis))]
+		}
+		if c.sc.refOK(n) {
+			return n
+		}
 	}
-	return g.name()
+	return "undefined"
 }
 
 func (g *jsgen) probe(c *jctx, ind string) string {
@@ -201,6 +238,9 @@ func (g *jsgen) probe(c *jctx, ind string) string {
 				if v[0] >= 'A' && v[0] <= 'Z' && g.r.Bool() {
 					tag = v
 				}
+			}
+			if !c.sc.refOK(tag) {
+				break
 			}
 			return fmt.Sprintf("%s$q(%d, () => <%s x={%s} />);\n", ind, g.newTag(), tag, n)
 		}
@@ -279,6 +319,9 @@ func (g *jsgen) stmt(c *jctx, depth int, ind string) string {
 			g.features["let-const"]++
 			return fmt.Sprintf("%s%s %s = %s;\n", ind, g.r.Pick([]string{"let", "const"}), n, g.newID())
 		case 2: // var (possibly inside extra blocks: hoisting through blocks)
+			if c.inWith {
+				continue // a var declared inside a with body: recorded findings (pinning / parameter merge)
+			}
 			n := g.capOrName()
 			if !c.sc.canVar(n) {
 				continue
@@ -376,6 +419,9 @@ func (g *jsgen) stmt(c *jctx, depth int, ind string) string {
 			g.features["for"]++
 			fs := newScope(c.sc, false)
 			kind := g.r.Intn(3)
+			if kind == 2 && c.inWith {
+				kind = 1
+			}
 			if kind == 2 {
 				if !c.sc.canVar(n) {
 					continue
@@ -447,7 +493,9 @@ func (g *jsgen) stmt(c *jctx, depth int, ind string) string {
 				continue // the with-object key would be mangled, the identifier inside the body cannot be
 			}
 			g.features["with"]++
-			bc := &jctx{sc: newScope(c.sc, false), labels: c.labels, strict: c.strict, inWith: true}
+			ws := newScope(c.sc, false)
+			ws.withBoundary = true
+			bc := &jctx{sc: ws, labels: c.labels, strict: c.strict, inWith: true}
 			return fmt.Sprintf("%swith ({ %s: %s }) {\n%s%s}\n", ind, n, g.newID(), g.body(bc, depth+1, ind+"  ", 1), ind)
 		case 12: // destructuring declarations
 			n1, n2 := g.name(), g.name()
@@ -480,8 +528,12 @@ func (g *jsgen) stmt(c *jctx, depth int, ind string) string {
 				continue
 			}
 			sort.Strings(cand)
+			an := cand[g.r.Intn(len(cand))]
+			if !c.sc.refOK(an) {
+				continue
+			}
 			g.features["assignment"]++
-			return fmt.Sprintf("%s$q(%d, () => %s = %s);\n", ind, g.newTag(), cand[g.r.Intn(len(cand))], g.newID())
+			return fmt.Sprintf("%s$q(%d, () => %s = %s);\n", ind, g.newTag(), an, g.newID())
 		case 14: // function in block (read inside the block only)
 			if deep {
 				continue
